@@ -168,3 +168,21 @@ PROPS["C17"]["miri"] = {
 }
 PROPS["C17"]["rule"] += " Two further layers, restricted to call pairs without open finding: free-running stress (3 real threads, real futex lock, seeded yields/spins injected at lock points; families owned-pairs and one-writer; oracles: no deadlock by a no-progress + all-threads-asleep criterion, no panic/poison, per-pair conservation of edges, invariant walkers at quiescence) and nine small scenarios run with real threads under Miri with many seeds (deadlock, data race, UB, serialisability of the outcome)."
 PROPS["C17"]["require"]["any"] += ["stress_iterations", "stress.injected_yields", "stress.acquisitions_that_had_to_block", "miri.free_runs"]
+
+import c14
+PROPS["C14"] = {
+    "id": "C14", "cmd": "-", "level": "exploration", "run_fn": c14.run,
+    "rule": "generated programs: for each of the 4 macros x 4 signature forms a seeded generator writes a Rust program with 60 (quick) / 400 (thorough) well-formed invocations (keys u32/&str/char/String incl. the empty string, node values i32/&str/tuple/Option, edge values i64/&str/tuple/f64, pure value expressions, self-loops, repeated edges, forward references, empty edge lists, `=>` without a bracket list, single-node and larger graphs, and invocations naming an unlisted key); each program is compiled against the working tree and run, and every structure dump (members, values, per-node ordered edge lists with values) is compared with the denotation computed by the generator; unlisted keys must panic naming the key; the empty form and the *_node!/*_connect! helpers are compared with Node::new/connect. distinct = distinct invocation texts.",
+    "exhaustive": {"quick": False, "thorough": False},
+    "require": {"any": ["invocations_compared", "panicking_invocations", "invocations_with_selfloop", "invocations_with_repeated_edge", "invocations_with_forward_reference", "invocations_without_brackets", "helper_programs"]},
+    "assumptions": ["the dump goes through the public API (iter, iter_out/iter_in, key, value); C01/C02 decide whether those views are coherent", "the statement is about contents: the concrete graph type a macro builds is recorded in the evidence notes, not judged"],
+}
+
+import c16
+PROPS["C16"] = {
+    "id": "C16", "cmd": "-", "level": "exploration", "run_fn": c16.run,
+    "rule": "witness programs = {sync_digraph, sync_ungraph} x {Node, Edge, Graph} x sharing mode {clone moved into thread::spawn, &T in thread::scope, Arc<T>} x payload position {K, N, E} x hostile payload {Cell-based (Send, !Sync), Rc-based (!Send, !Sync)}, plus the same with benign (Arc<AtomicU64>) payloads in all positions, plus plain digraph/ungraph witnesses with u64 payloads; both threads touch key, value and edge values. Each witness is submitted to the compiler with hooks off: rejected with E0277 naming Send/Sync = not constructible; accepted = run under Miri with many seeds, a data race / UB in an accepted hostile or plain witness is a violation, benign witnesses must build and run race-free. distinct = distinct witness programs.",
+    "exhaustive": {"quick": True, "thorough": True},
+    "require": {"any": ["hostile_rejected_for_send_sync", "plain_rejected_for_send_sync", "positive_accepted", "positive_run_race_free", "miri_runs"]},
+    "assumptions": ["the universally quantified statement over all K, N, E is a fact about the trait solver and is not decided by executions; only these concrete witnesses are", "a hostile witness that compiles but in which Miri observes no race is reported in the evidence notes, not as a violation"],
+}
